@@ -116,3 +116,65 @@ Theorem adjoint_general : H \in unitmx -> (forall i, col i S = dsm1 i) ->
 Proof. by move=> Hu Hc; rewrite /gain_adjoint cols_mul0 // linsolve_transposes_twice. Qed.
 
 End Gain.
+
+(* ---- GainEEGMEGadjoint builds its right-hand side row by row:
+        RHS.setlin(i,Head2EEGMat.getlin(i));  RHS.setlin(i+Head2EEGMat.nlin(),Head2MEGMat.getlin(i));
+      SparseMatrix::getlin / Matrix::getlin are Section variables; that they return the rows of their matrix is the premise
+      (for the sparse one: C14's getlin theorem).  With a getlin that loses an entry the combined computation is wrong while the
+      separate ones (which never call getlin) stay right: getlin_defect_breaks_combined. ---- *)
+Section GainGetlin.
+Variable R : fieldType.
+Variables n me mm nd : nat.
+Variable H : 'M[R]_n.
+Variable A : 'M[R]_(me, n).
+Variable B : 'M[R]_(mm, n).
+Variable P : 'M[R]_(mm, nd).
+Variable dsm1 : 'I_nd -> 'cV[R]_n.
+Variable solveLin : 'M[R]_n -> forall k, 'M[R]_(n, k) -> 'M[R]_(n, k).
+Variable getlinA : 'I_me -> 'rV[R]_n.      (* Head2EEGMat.getlin(i), SparseMatrix::getlin *)
+Variable getlinB : 'I_mm -> 'rV[R]_n.      (* Head2MEGMat.getlin(i), Matrix::getlin *)
+
+Definition eegmeg_rhs_rows : 'M[R]_(me + mm, n) :=
+  \matrix_(r, j) match split r with inl i => getlinA i 0 j | inr i => getlinB i 0 j end.
+Definition gain_eegmeg_rows_eeg : 'M[R]_(me, nd) :=
+  \matrix_(r, i) (submat_rows 0 me (linsolve H solveLin eegmeg_rhs_rows) *m dsm1 i) r 0.
+Definition gain_eegmeg_rows_meg : 'M[R]_(mm, nd) :=
+  \matrix_(r, i) (submat_rows me mm (linsolve H solveLin eegmeg_rhs_rows) *m dsm1 i + col i P) r 0.
+
+Lemma eegmeg_rhs_rows_col_mx :
+  (forall i, getlinA i = row i A) -> (forall i, getlinB i = row i B) -> eegmeg_rhs_rows = col_mx A B.
+Proof.
+move=> HA HB; apply/matrixP => r j; rewrite !mxE.
+by case: (split r) => i; rewrite ?HA ?HB !mxE.
+Qed.
+
+Lemma combined_rows_eq_eeg :
+  (forall i, getlinA i = row i A) -> (forall i, getlinB i = row i B) ->
+  gain_eegmeg_rows_eeg = gain_eegmeg_adjoint_eeg H A B dsm1 solveLin.
+Proof. by move=> HA HB; rewrite /gain_eegmeg_rows_eeg eegmeg_rhs_rows_col_mx. Qed.
+
+Lemma combined_rows_eq_meg :
+  (forall i, getlinA i = row i A) -> (forall i, getlinB i = row i B) ->
+  gain_eegmeg_rows_meg = gain_eegmeg_adjoint_meg H A B P dsm1 solveLin.
+Proof. by move=> HA HB; rewrite /gain_eegmeg_rows_meg eegmeg_rhs_rows_col_mx. Qed.
+End GainGetlin.
+
+(* a getlin that starts after column 0 (the entry of column 0 is lost): 1 unknown, 1 electrode, no squid, 1 dipole, H = 1 *)
+Lemma getlin_defect_breaks_combined :
+  let H : 'M[rat]_1 := 1%:M in
+  let A : 'M[rat]_(1, 1) := 1%:M in
+  let B : 'M[rat]_(0, 1) := 0 in
+  let dsm1 : 'I_1 -> 'cV[rat]_1 := fun _ => 1%:M in
+  let solve := (fun (M : 'M[rat]_1) k (X : 'M[rat]_(1, k)) => invmx M *m X) in
+  let getlin_bad : 'I_1 -> 'rV[rat]_1 := fun i => \row_j (if (j : nat) == 0%N then 0 else A i j) in
+  gain_eegmeg_rows_eeg H dsm1 solve getlin_bad (fun i => row i B) 0 0 = 0 /\
+  gain_adjoint H A dsm1 solve 0 0 = 1.
+Proof.
+move=> H A B dsm1 solve getlin_bad; split.
+- rewrite /gain_eegmeg_rows_eeg mxE.
+  have -> : eegmeg_rhs_rows getlin_bad (fun i => row i B) = 0.
+    by apply/matrixP => r j; rewrite !mxE; case: (split r) => i; rewrite !mxE ?ord1.
+  by rewrite /linsolve /solve trmx0 mulmx0 trmx0 /submat_rows !mxE big_ord_recl big_ord0 !mxE /=; case: insubP => [u _ _|_]; rewrite ?mxE ?mul0r ?addr0.
+- rewrite /gain_adjoint mxE /linsolve /solve /H invmx1 mul1mx trmxK /A mul1mx /dsm1 !mxE.
+  by [].
+Qed.
